@@ -22,6 +22,15 @@
 //       the unity build) on them and dumps the result, in the line protocol of the Lean driver:
 //         case <id> / lang <lang-id> / kind balance / balmode compress <count> | balmode balance /
 //         btree 0 … end (before) / tree 0 … end (after) / runbal
+//
+//   tsv-cunit_c02 widths
+//       MEASURES how many bits each cached field of the real `SubtreeHeapData` holds: a heap record with
+//       every bit set is read back through the runtime's own accessors (ts_node_child_count,
+//       ts_node_named_child_count, ts_subtree_visible_descendant_count, ts_subtree_error_cost,
+//       ts_subtree_padding/size, ...), so the value printed for a field is 2^w - 1 for a field of w bits.
+//       The Lean side (`TsVerif.C02.assumedBits`) states the widths the Nat-valued model relies on (every
+//       quantity that grows with the document: >= 32 bits) and judges the measurement.
+//         -> "widths child_count=<max> visible_child_count=<max> named_child_count=<max> ..."
 #include TSV_REPO_LIB_C
 #include "shim.c"
 #include <stdio.h>
@@ -185,10 +194,33 @@ static int balance_cases(const char *so, const char *fn, const char *lang_id, un
   return 0;
 }
 
+static int widths(void) {
+  SubtreeHeapData *h = malloc(sizeof *h);
+  memset(h, 0xFF, sizeof *h);
+  h->is_missing = 0;                      // ts_subtree_error_cost answers a constant for MISSING nodes
+  Subtree t;
+  memset(&t, 0, sizeof t);
+  t.ptr = h;                              // an aligned pointer: the is_inline bit is clear
+  if (t.data.is_inline) { fprintf(stderr, "widths: heap pointer reads as inline\n"); return 3; }
+  TSNode node = ts_node_new(NULL, &t, length_zero(), 0);
+  Length p = ts_subtree_padding(t), z = ts_subtree_size(t);
+  printf("widths child_count=%u visible_child_count=%u named_child_count=%u visible_descendant_count=%u error_cost=%u "
+         "lookahead_bytes=%u padding_bytes=%u padding_row=%u padding_column=%u size_bytes=%u size_row=%u size_column=%u "
+         "repeat_depth=%u production_id=%u symbol=%u parse_state=%u\n",
+         ts_subtree_child_count(t), ts_node_child_count(node), ts_node_named_child_count(node),
+         ts_subtree_visible_descendant_count(t), ts_subtree_error_cost(t), ts_subtree_lookahead_bytes(t),
+         p.bytes, p.extent.row, p.extent.column, z.bytes, z.extent.row, z.extent.column,
+         ts_subtree_repeat_depth(t), (unsigned)ts_subtree_production_id(t), (unsigned)ts_subtree_symbol(t),
+         (unsigned)ts_subtree_parse_state(t));
+  free(h);
+  return 0;
+}
+
 int main(int argc, char **argv) {
+  if (argc == 2 && !strcmp(argv[1], "widths")) return widths();
   if (argc == 4 && !strcmp(argv[1], "lang")) return dump_language(argv[2], argv[3]);
   if (argc == 7 && !strcmp(argv[1], "balance"))
     return balance_cases(argv[2], argv[3], argv[4], (unsigned)strtoul(argv[5], NULL, 10), (unsigned)strtoul(argv[6], NULL, 10));
-  fprintf(stderr, "usage: %s lang <lang.so> <tree_sitter_NAME> | balance <lang.so> <fn> <lang-id> <seed> <cases>\n", argv[0]);
+  fprintf(stderr, "usage: %s lang <lang.so> <tree_sitter_NAME> | balance <lang.so> <fn> <lang-id> <seed> <cases> | widths\n", argv[0]);
   return 2;
 }
